@@ -36,10 +36,10 @@ func (w *world) evidence(fams []family, b *bfs) {
 	r.Set("file_families", fs)
 	r.Set("alphabet_source_lines", len(alphabet))
 	r.Set("key_layouts", len(layouts))
-	r.Set("max_orders_per_diff", maxOrders)
+	r.Set("max_orders_per_diff", w.p.maxOrders)
 	r.Set("file_pairs_x_layouts", cnt.Pairs)
 	r.Set("pairs_with_every_order", cnt.PairsAllOrders)
-	r.Set("pairs_with_24_selected_orders", cnt.PairsCapped)
+	r.Set("pairs_with_selected_orders_only", cnt.PairsCapped)
 	r.Set("max_diff_lines", cnt.MaxDiffLines)
 	r.Set("valid_transitions_fresh_copy_file_api_full_dump", cnt.Strict)
 	r.Set("valid_transitions_other_orders_in_session", cnt.Light)
@@ -48,7 +48,9 @@ func (w *world) evidence(fams []family, b *bfs) {
 	r.Set("faulty_transitions_with_valid_lines_around", cnt.FaultyNontrivial)
 	r.Set("bfs_chain_applies", cnt.Chain)
 	r.Set("bfs_new_store_contents_per_depth", b.levels)
-	r.Set("bfs_depth", r.Pick(2, 3))
+	r.Set("bfs_depth", w.p.bfsDepth)
+	r.Set("fresh_copy_transition_max_source_lines_A_plus_B", w.p.strictMax)
+	r.Set("every_faulty_line_at_every_position_for_small_pairs", w.p.allFaults)
 	r.Set("walk_applies", cnt.Walk)
 	r.Set("serial_skew_applies", cnt.Skew)
 	r.Set("full_raw_iterator_dumps", cnt.FullDumps)
@@ -71,19 +73,24 @@ func (w *world) evidence(fams []family, b *bfs) {
 		al = append(al, a.id+"  "+a.text)
 	}
 	r.Set("alphabet", al)
+	strictRule := fmt.Sprintf("pairs with <=%d source lines in A and B together", w.p.strictMax)
+	faultRule := "the first faulty line of every class before the first and after the last valid line"
+	if w.p.allFaults {
+		faultRule = "every faulty line at every position"
+	}
 	r.Set("rule", fmt.Sprintf("data files = all multisets of source lines in the families [%s] of the %d-line alphabet, preprocessed by the real Codec.Preprocess (files with equal preprocessed form merged); "+
 		"for every ordered pair of files (A,B) (incl. A=A, empty diff) x v1/v2 keys: the line diff A->B in every order when n!<=%d, else %d selected orders (identity, reversal, +before-, -before+, evenly spread lexicographic ranks). "+
-		"Order 0 is applied as the tool does (fresh copy of rdb.Compile(A), rdb.ApplyDiff(file, dir) = open/apply/close) and the closed store is dumped with a raw iterator; the other orders run through one rdb.NewUpdater session on another copy: (*RDB).ApplyDiff, read back every key of A and B with (*RDB).ForEach, re-install compile(A)'s exact content (verified), full raw-iterator dump == compile(A) when the session is closed. "+
+		"For %s order 0 is applied as the tool does (fresh copy of rdb.Compile(A), rdb.ApplyDiff(file, dir) = open/apply/close) and the closed store is dumped with a raw iterator; all other cases run through one rdb.NewUpdater session per (layout, A) on a copy of compile(A): (*RDB).ApplyDiff, read back every key of A and B with (*RDB).ForEach, re-install compile(A)'s exact content (verified), full raw-iterator dump == compile(A) when the session is closed. "+
 		"Oracle: content == dnsfix.DumpRDB(rdb.Compile(B)) as key -> multiset of values. "+
-		"Faulty transitions (same session) = diff A->B plus one '-' line whose record is absent after the diff (absent key / absent value under a live key / one deletion too many; every preprocessed line of the one-line files plus two strangers) or one malformed line (bad op, unknown record type, op only, unquotable location): at every position when A and B have <=1 source line, else one undeletable and one malformed line after the last valid line (class rotating with the pair); must return an error and leave the exact content (value order included) unchanged. "+
-		"BFS: states are exact store contents (value order included), confined to files made of the 5 lines that can share a key (a1 a2 soa dot soa2; only those can give a value order a fresh compile does not give); contents that differ from every fresh compile are rebuilt by replay and taken through the diff to every other file of that universe in every order, to depth %d. "+
-		"Walks: one physical store taken through every sequence of the <=1-line files, open/apply/close per step, to depth %d. "+
+		"Faulty transitions (same session) = diff A->B plus one '-' line whose record is absent after the diff (absent key / absent value under a live key / one deletion too many; every preprocessed line of the one-line files plus two strangers) or one malformed line (bad op, unknown record type, op only, unquotable location): for pairs of <=1-line files %s, for every other pair one undeletable and one malformed line after the last valid line (line rotating with the pair); must return an error and leave the exact content (value order included) unchanged. "+
+		"BFS: states are exact store contents (value order included), confined to files made of the lines that can share a key (a1 a2 soa dot soa2; only those can give a value order a fresh compile does not give); contents that differ from every fresh compile are rebuilt by replay and taken through the diff to every other file of that universe in every order, to depth %d. "+
+		"Walks: one physical store taken through every sequence of %d files (empty and one-line files), open/apply/close per step, to depth %d. "+
 		"Serial skew: every pure-deletion diff (B sub-multiset of A) applied through rdb.ApplyDiff(file) with a diff file whose mtime (= the serial ApplyDiff derives) differs from the compile serial, as happens in the field; must succeed and give compile(B). "+
 		"states = distinct exact store contents seen (both layouts); transitions = real ApplyDiff executions; evaluations = content comparisons; non-trivial = valid transitions whose diff is non-empty plus faulty ones whose diff has valid lines besides the faulty one",
-		strings.Join(fs, "; "), len(alphabet), maxOrders, maxOrders, r.Pick(2, 3), r.Pick(2, 3)))
+		strings.Join(fs, "; "), len(alphabet), w.p.maxOrders, w.p.maxOrders, strictRule, faultRule, w.p.bfsDepth, len(w.p.walkLines)+1, w.p.walkDepth))
 	r.Assume = []string{
 		"both files of a diff are preprocessed with the same serial, and - except in the serial-skew phase - compile and ApplyDiff use that serial ('.' lines take that serial, Z lines carry explicit serials after preprocessing)",
-		"diffs with more than 4 lines are tried in 24 selected orders, not all n! (a declared bound, like the depth)",
+		fmt.Sprintf("diffs with more than %d orders are tried in %d selected orders, not all n! (a declared bound, like the depth)", w.p.maxOrders, w.p.maxOrders),
 		"RocksDB itself (cgo) is executed, not modelled; within a session the store is observed through (*RDB).ForEach on the keys of both files and re-installed with (*RDB).Add/Del (verified by reading back), the whole store is dumped with a raw iterator once per session and once per fresh-copy transition",
 		"only the alphabet's record types (+ Z . % !), one subnet map; ApplyDiff exists for RocksDB only",
 	}
@@ -92,7 +99,7 @@ func (w *world) evidence(fams []family, b *bfs) {
 	for _, i := range []int{1, n + 2, n*n/3 + 1, n*n/2 + 3, n*n - 2} {
 		a, b := (i/n)%n, i%n
 		d := lineDiff(w.states[a].pre, w.states[b].pre)
-		p, complete := orders(d, maxOrders)
+		p, complete := orders(d, w.p.maxOrders)
 		r.Sample(map[string]interface{}{"from": w.states[a].name, "to": w.states[b].name, "diff": d, "orders_tried": len(p), "all_orders": complete})
 	}
 }
